@@ -42,6 +42,8 @@ def tofloat32(v):
 
 def parse(path):
     C, R, T, O, E, A = {}, {}, {}, {}, {}, []
+    global FORM
+    FORM = {'F': [], 'FS': []}
     with open(path) as f:
         for l in f:
             p = l.split()
@@ -60,6 +62,8 @@ def parse(path):
                 O[int(p[1])] = p
             elif k == 'E':
                 E[int(p[1])] = p
+            elif k in ('F', 'FS'):
+                FORM[k].append(p)
     return C, R, T, O, E, A
 
 
@@ -117,8 +121,30 @@ def run(ck):
     proof_ok, failing = ck.proof_stage('MpVerif.C13.Props', 'MpVerif/C13/Props.lean', 'C13_',
                                         ['MpVerif/C13/*.lean'], expect_min=10)
     ck.log('proof stage: ok=%s failing=%s' % (proof_ok, failing[:8]))
+    # proof-only modules that need Mathlib (not imported by the driver): the chord-error lemma over the reals, and
+    # monotonicity / idempotence of the model's concrete rounding functions => C13_increasing for the IEEE instance
+    extra_thms = []
+    for mod, nmin in (('MpVerif.C13.PropsIEEE', 6), ('MpVerif.C13.Chord', 5)):
+        okm, outm = ck.lake([mod])
+        if not okm:
+            failing.append('%s does not build: %s' % (mod, outm[-300:]))
+            proof_ok = False
+            ck.cov['obligations'] = ck.cov.get('obligations', 0) + nmin
+            continue
+        aok, th, _ = ck.prop_theorems(mod, 'C13_')
+        badax = [(n, [a for a in ax if a not in ALLOWED_AXIOMS]) for n, ax in th]
+        badax = [x for x in badax if x[1]]
+        ck.cov['obligations'] = ck.cov.get('obligations', 0) + max(len(th), nmin)
+        if not aok or len(th) < nmin or badax:
+            failing.append('%s: audit (%d theorems, expected >= %d, bad axioms %s)' % (mod, len(th), nmin, badax[:3]))
+            proof_ok = False
+        else:
+            ck.cov['discharged'] = ck.cov.get('discharged', 0) + len(th)
+            extra_thms += [n for n, _ in th]
+    ck.cov['theorems'] = ck.cov.get('theorems', []) + extra_thms
+    ck.cov['checker_cmd'] = ck.cov.get('checker_cmd', '') + ' ; same for MpVerif.C13.PropsIEEE and MpVerif.C13.Chord'
     if ck.tier == 'thorough' and proof_ok:
-        bad = ck.leanchecker(['MpVerif.C13.Props'])
+        bad = ck.leanchecker(['MpVerif.C13.Props', 'MpVerif.C13.PropsIEEE', 'MpVerif.C13.Chord'])
         if bad:
             failing += ['leanchecker rejected %s' % m for m in bad]
             proof_ok = False
@@ -136,6 +162,7 @@ def run(ck):
                          {'cmd': '%s %s %d' % (exe_lib, ck.tier, ck.seed)}, found_input=False)
     C, _, _, O, E, _ = parse(lib_out)
     Ct, R, T, Ot, _, A = parse(tr_out)
+    form = FORM
     ck.log('real code: %d cases through mp::PLApproximate, %d through the tracing subclass (%d synthetic records), %d arithmetic cases'
            % (len(O), len(Ot), len(Ot) - len(O), len(A)))
 
@@ -350,6 +377,28 @@ def run(ck):
                          % (c[2], d['lbx'], d['ubx'], d['ubErr'], want[:40], got[:40], diff),
                          {'case': d, 'real': want[:300], 'model': got[:300], 'correspondence': 'drv_c13 vs h_pl_trace',
                           'searched': 'property oracle satisfied on this input', 'replay': replay_cmd(ck, i)}, found_input=False)
+    # formula-consistency oracle (function-specific eval_1st / eval_2nd / inverse / inverse_1st vs their own eval)
+    n_form = sum(int(x[4]) for x in form['FS'])
+    seen_form = set()
+    for fl in form['F']:
+        fn, prm, kind = fl[1], h2f(fl[2]), fl[3]
+        sig = 'formula:%s:%s' % (fn, kind)
+        if sig in seen_form:
+            continue
+        seen_form.add(sig)
+        tol_hit = [v['sig'] for v in ck.violations if v['sig'].startswith('tol:%s:' % fn) or ('+tol:%s:' % fn) in v['sig']]
+        ck.add_violation(sig, '%s (parameter %r), subinterval %s: %s(%s) = %s but numerical differentiation / inversion of the record\'s own eval gives %s%s'
+                         % (fn, prm, fl[4], kind, fl[5], fl[6], fl[7],
+                            ('; the tolerance oracle fails for this function too: %s' % tol_hit[0]) if tol_hit else ''),
+                         {'function': fn, 'param': prm, 'kind': kind, 'subinterval': fl[4], 'x': fl[5], 'got': fl[6], 'expected': fl[7],
+                          'tolerance_oracle': tol_hit[:3], 'how': 'build/bin/h_pl_trace-* %s %d prints the F lines' % (ck.tier, ck.seed)},
+                         found_input=bool(tol_hit))
+    for x in form['FS']:
+        if x[3] != 'ok':
+            ck.add_violation('formula:%s:exception' % x[1], 'initialising the approximator for %s (parameter %r) raised' % (x[1], h2f(x[2])),
+                             {'function': x[1]}, found_input=False)
+    if len(form['FS']) < 37:
+        ck.add_violation('formula-oracle-missing', 'the formula-consistency oracle covered only %d of 37 function records' % len(form['FS']), {}, found_input=False)
     if arith_bad:
         a, want, got = arith_bad[0]
         ck.add_violation('arith-model-differs', 'model rounding differs from the hardware: %s %s %s = %s, model %s (%d cases)' %
@@ -370,7 +419,8 @@ def run(ck):
     ck.cov['correspondence'] = {'skeleton_cases_replayed_bit_exact': n_run, 'by_status': agree, 'disagreements': len(corr_bad),
                                 'not_replayed_trace_too_large': skipped_big, 'not_replayed_non_finite_oracle_value': nonfinite_skip,
                                 'arithmetic_cases': len(A), 'arithmetic_disagreements': len(arith_bad),
-                                'validator_runs_on_real_outputs': n_val}
+                                'validator_runs_on_real_outputs': n_val,
+                                'formula_consistency_checks': n_form, 'formula_consistency_failures': len(form['F'])}
     fn_hist = {}
     for i, c in C.items():
         fn_hist[c[2]] = fn_hist.get(c[2], 0) + 1
@@ -386,7 +436,7 @@ def run(ck):
     for i in list(O)[:400:37]:
         ck.sample(' '.join(C[i][:10]) + ' -> ' + ' '.join(O[i][:14]))
     ck.assumptions += [
-        'rounding functions of the driver instance (rndD, rndS, sqrtD) are assumed monotone/idempotent (Lawful); they are compared with the hardware on every run, not proved',
+        'the model\'s rndD / rndS are PROVED monotone, idempotent, float-in-double (C13_lawful_ieee); that they coincide with the hardware\'s binary64/binary32 rounding (and sqrtD with the hardware sqrt) is compared on every run, not proved',
         'production build: -DNDEBUG (assert() off, MP_ASSERT_ALWAYS on), -O1, x86-64 SSE2 double arithmetic without FMA contraction',
         'the tolerance clause (|f - PL| <= tol at every real point) is explored numerically only: libm values, long double reference',
     ]
